@@ -116,6 +116,17 @@ def removeLoop (items : List Nat) :
       let (k, r, u) := removeLoop items t (i + 1) (j + 1) newPos
       (k, i :: r, u)
 
+/-- the scan-path loop of `_remove_helper` over (row, matches) pairs, with the same renumbering -/
+def scanRemoveLoop :
+    List (Point × Bool) → (i newPos : Nat) → List Point × List Nat × List (Nat × Nat)
+  | [], _, _ => ([], [], [])
+  | (p, false) :: t, i, newPos =>
+    let (k, r, u) := scanRemoveLoop t (i + 1) (newPos + 1)
+    (p :: k, r, if i != newPos then (i, newPos) :: u else u)
+  | (_, true) :: t, i, newPos =>
+    let (k, r, u) := scanRemoveLoop t (i + 1) newPos
+    (k, i :: r, u)
+
 /-- `_remove_helper` -/
 def removeHelper (s : State) (q : Query) (m : Option String) : Except Exc (State × Nat) := do
   if s.index.valid && exact q then
@@ -130,13 +141,10 @@ def removeHelper (s : State) (q : Query) (m : Option String) : Except Exc (State
     pure ({ s with storage := kept, index := idx }, removed.length)
   else
     let flags ← s.storage.mapM (scanSel q m)
-    let z := s.storage.zip flags
-    let kept := (z.filter (fun pf => !pf.2)).map (·.1)
-    let removed := ((z.zipIdx.filter (fun pfi => pfi.1.2)).map (·.2))
+    let (kept, removed, updated) := scanRemoveLoop (s.storage.zip flags) 0 0
     if removed.isEmpty then return (s, 0)
     if kept.isEmpty then return (s.resetDatabase, removed.length)
-    -- scan path: `updated_items` stays empty
-    let idx := if s.cfg.autoIndex then (s.index.remove removed).update [] else s.index.invalidate
+    let idx := if s.cfg.autoIndex then (s.index.remove removed).update updated else s.index.invalidate
     pure ({ s with storage := kept, index := idx }, removed.length)
 
 /-- the rewrite loop of `_update_helper` over (row, selected) pairs: new rows and the number of
